@@ -207,3 +207,50 @@ def check_loop(loop, accs):
                 if isinstance(m, ast.Break):
                     inner_break_lines.add(m.lineno)
     return [p for p in an.problems if not (p[0] == "break" and p[2] in inner_break_lines)]
+
+
+def writes_name(stmt, name):
+    """does the statement (at any depth) rebind or extend the local `name`: assignment, augmented assignment, deletion, a mutating
+    method call on it (append / extend / insert / sort / remove / pop / clear / update)"""
+    for n in ast.walk(stmt):
+        if isinstance(n, (ast.Assign, ast.AnnAssign, ast.AugAssign)):
+            targets = n.targets if isinstance(n, ast.Assign) else [n.target]
+            for t in targets:
+                for m in ast.walk(t):
+                    if isinstance(m, ast.Name) and m.id == name:
+                        return True
+        if isinstance(n, ast.Call) and isinstance(n.func, ast.Attribute) and isinstance(n.func.value, ast.Name) \
+                and n.func.value.id == name and n.func.attr in ("append", "extend", "insert", "sort", "remove", "pop", "clear", "update",
+                                                                  "reverse"):
+            return True
+        if isinstance(n, (ast.For, ast.comprehension)) and any(isinstance(m, ast.Name) and m.id == name for m in ast.walk(n.target)):
+            return True
+    return False
+
+
+def check_final_value(fn, var, call, early_returns):
+    """the value the function hands back at its end is the result of `call` applied to `var`: the last top-level statement is
+    `return var`, the closest earlier top-level statement that writes `var` is `var = call(var, ...)`, and the function has exactly
+    `early_returns` other return statements (each one is an early out the contract knows about).  -> list of problems"""
+    problems = []
+    body = [s for s in fn.body if not (isinstance(s, ast.Expr) and isinstance(getattr(s, "value", None), ast.Constant))]
+    if not body or not (isinstance(body[-1], ast.Return) and isinstance(body[-1].value, ast.Name) and body[-1].value.id == var):
+        problems.append(("final-return", var, getattr(body[-1], "lineno", fn.lineno) if body else fn.lineno))
+        return problems
+    last = None
+    for st in reversed(body[:-1]):
+        if writes_name(st, var):
+            last = st
+            break
+    ok = isinstance(last, ast.Assign) and len(last.targets) == 1 and isinstance(last.targets[0], ast.Name) and last.targets[0].id == var \
+        and isinstance(last.value, ast.Call) \
+        and (last.value.func.id if isinstance(last.value.func, ast.Name) else getattr(last.value.func, "attr", None)) == call \
+        and last.value.args and isinstance(last.value.args[0], ast.Name) and last.value.args[0].id == var
+    if not ok:
+        problems.append(("last-write-is-not-the-call", var, getattr(last, "lineno", fn.lineno)))
+    others = [n for n in ast.walk(fn) if isinstance(n, ast.Return) and n is not body[-1]]
+    inner_defs = [d for d in ast.walk(fn) if isinstance(d, (ast.FunctionDef, ast.Lambda)) and d is not fn]
+    others = [r for r in others if not any(r in list(ast.walk(d)) for d in inner_defs)]
+    if len(others) != early_returns:
+        problems.append(("early-returns", str(len(others)), others[0].lineno if others else fn.lineno))
+    return problems
